@@ -59,6 +59,10 @@ partial def parseExpr (table : Array Expr) (j : Json) : Expr :=
   | "usage" => .usage (jS j "s") inner
   | "nospace" => .nospace (jS j "s") inner
   | "suppress" => .suppress (jS j "s") inner
+  | "suppressN" =>
+    -- Suppress(e1, e2, ...) deletes what any expression matches: nested single suppressions; the literals after
+    -- `(?i)` are chosen so that case does not matter for them
+    (jstrs j "xs").foldl (fun acc p => .suppress (if Str.hasPrefix p "(?i)".toList then p.drop 4 else p) acc) inner
   | "unless" => .unless (jbool j "b") inner
   | "shift" => .shift (jint j "n") inner
   | "list" => .list (jS j "s") inner
@@ -270,7 +274,8 @@ def runInvoke (inp out : Json) : Json :=
                     let ms := (jarr out "members").toList.map parseResult
                     ms.length == es.length && (es.zip ms).all (fun (ei, mi) => sameInvoked (invoke ei c) mi)
                   | _ => false
-                Json.mkObj [("C09", Json.bool (same || !batchOnly)),
+                Json.mkObj [("C06", Json.bool (same || (match real with | some r => r.1.messages == model.1.messages | none => false))),
+                            ("C09", Json.bool (same || !batchOnly)),
                             ("C11", Json.bool (same || !hasMultiParts e || batchOnly)),
                             ("C12", Json.bool (same || batchOnly || (match e with | .multiParts .. => true | _ => false)))]),
               ("fails", Json.arr (fails.map afailJson).toArray),
